@@ -56,10 +56,11 @@ func regServices() []ServiceSpec {
 	bm1.AdditionalBindings = append(bm1.AdditionalBindings, httpRule("GET", "/g/a/m2"))
 	return []ServiceSpec{
 		// (below /g/v four variable edges with different patterns, owned alternately by A and B - dropping one service
-		// must not disturb its siblings, whatever their order; A.m2 and B.m2 have a binding nested below their primary one)
-		{Pkg: "vg", Name: "A", Methods: []MethodSpec{{Name: "m1", Rule: more(body("/g/a/m1/{s}"), "/g/a/alt/{s}", "/g/v/{s=aa/*}")},
+		// must not disturb its siblings, whatever their order; A.m2 and B.m2 have a binding nested below their primary one;
+	// A.m1 is bound to a literal and to a variable edge of one node, B.m2 to a template that starts with a variable)
+		{Pkg: "vg", Name: "A", Methods: []MethodSpec{{Name: "m1", Rule: more(body("/g/a/m1/{s}"), "/g/a/alt/{s}", "/g/v/{s=aa/*}", "/g/w/fixed", "/g/w/{s}")},
 			{Name: "m2", Rule: more(body("/g/a/m2"), "/g/a2/m2", "/g/a3/{s}/m2", "/g/v/{s=cc/*}/tail", "/g/a/m2/{s}/deep")}}},
-		{Pkg: "vg", Name: "B", Methods: []MethodSpec{{Name: "m1", Rule: bm1}, {Name: "m2", Rule: more(body("/g/a/m1/{s}/b"), "/g/v/{s=dd/*}", "/g/a/m1/{s}/b/{t}/deeper")}}},
+		{Pkg: "vg", Name: "B", Methods: []MethodSpec{{Name: "m1", Rule: bm1}, {Name: "m2", Rule: more(body("/g/a/m1/{s}/b"), "/g/v/{s=dd/*}", "/g/a/m1/{s}/b/{t}/deeper", "/{s}/gone")}}},
 	}
 }
 
@@ -167,10 +168,10 @@ var regMethods = []struct {
 	name, full, path string
 	extras           []string // request paths of the additional bindings
 }{
-	{"A.m1", "/vg.A/m1", "/g/a/m1/x", []string{"/g/a/alt/x", "/g/v/aa/1"}},
+	{"A.m1", "/vg.A/m1", "/g/a/m1/x", []string{"/g/a/alt/x", "/g/v/aa/1", "/g/w/fixed", "/g/w/x"}},
 	{"A.m2", "/vg.A/m2", "/g/a/m2", []string{"/g/a2/m2", "/g/a3/x/m2", "/g/v/cc/1/tail", "/g/a/m2/x/deep"}},
 	{"B.m1", "/vg.B/m1", "/g/b/x:go", []string{"/g/b2/x", "/g/v/bb/1", "GET /g/a/m2"}},
-	{"B.m2", "/vg.B/m2", "/g/a/m1/x/b", []string{"/g/v/dd/1", "/g/a/m1/x/b/y/deeper"}},
+	{"B.m2", "/vg.B/m2", "/g/a/m1/x/b", []string{"/g/v/dd/1", "/g/a/m1/x/b/y/deeper", "/zz/gone"}},
 }
 
 // what each backend of the scenario serves (must agree with Registry_Hist.tla)
